@@ -171,7 +171,13 @@ func (ex *expected) assumption(unit string) benchmath.Assumption {
 var csvWarnRe = regexp.MustCompile(`^[A-Z]+([0-9]+): (.*)$`)
 
 func relClose(a, b float64) bool {
-	return a == b || math.Abs(a-b) <= 1e-12*math.Max(math.Abs(a), math.Abs(b))
+	if a == b {
+		return true
+	}
+	if math.IsInf(a, 0) || math.IsInf(b, 0) { // (Inf <= Inf would let an infinite value pass for a finite one)
+		return false
+	}
+	return math.Abs(a-b) <= 1e-12*math.Max(math.Abs(a), math.Abs(b))
 }
 
 func c14Check(c statCase) (v vcase.Verdict) {
